@@ -140,7 +140,9 @@ let handle kind a =
                   | QOk l -> Buffer.add_string b (offs l))
              | _ -> ()) (split_on ';' a.(6));
            Some (Buffer.contents b))
-  | "bamb" ->
+  | "bamb" | "bcfb" ->
+      (* bcfb: the same case shape over the BCF record framing (NV.Index.BcfByteQuery); a record is
+         described by everything behind its l_shared word *)
       (* byte level: the file's frames, the header length, chunk lists run one after the other on
          one reader; see harness/src/shared/c04_bytes.rs *)
       let hl = n_of_dec a.(0) in
@@ -157,7 +159,7 @@ let handle kind a =
         | Err0 UnexpectedEof0 -> "Err:UnexpectedEof" | Err0 InvalidData0 -> "Err:InvalidData"
         | Err0 InvalidInput0 -> "Err:InvalidInput" | Panic0 -> "Panic" | OutOfFuel0 -> "OutOfFuel"
         | _ -> "Unmodelled" in
-      (match byte_session_x frames hl qs with
+      (match (if kind = "bcfb" then bcf_byte_session_x else byte_session_x) frames hl qs with
        | (Ok0 l, answers) ->
            let b = Buffer.create 256 in
            Buffer.add_string b "S";
